@@ -63,7 +63,17 @@ fn helpers(ctx: &mut Ctx, r: &mut Rng, _i: u64) {
     // script data: redeemers (possibly empty), datums (optional), cost models
     let with_red = g.r.below(8) != 0;
     let with_dat = g.r.bool();
-    let reds = if with_red { g.redeemers(false) } else { Redeemers::new() };
+    // no redeemers: a fresh collection, or an empty one read from either wire spelling (the legacy array
+    // `80`, the Conway map `a0`) - the ledger's definition does not depend on where the emptiness came from
+    let reds = if with_red {
+        g.redeemers(false)
+    } else {
+        match g.r.below(3) {
+            0 => Redeemers::new(),
+            1 => Redeemers::from_bytes(vec![0x80]).unwrap_or_else(|_| Redeemers::new()),
+            _ => Redeemers::from_bytes(vec![0xa0]).unwrap_or_else(|_| Redeemers::new()),
+        }
+    };
     let datums = if with_dat { Some(g.plutus_list()) } else { None };
     let mut cm = Costmdls::new();
     let mut views: BTreeMap<u8, Vec<i128>> = BTreeMap::new();
